@@ -127,6 +127,15 @@ def gen_groups(rng):
             lo = rng.randint(0, 5)
             spec = ("range", lo, lo + rng.choice([0, 1, 2, 4]))
         groups.append(("G%d" % gi, spec))
+    # groups that take everything, their count included, from another *listed* group through "extends"
+    # (listed before or after their parent); `from` / `to` are not inheritable, so a child of a range group
+    # is a single entity
+    for ci in range(rng.choice([0, 0, 1, 2])):
+        pname, pspec = rng.choice(groups)
+        while pspec[0] == "inherit":
+            pname, pspec = next(g for g in groups if g[0] == pspec[1])
+        n = pspec[1] if pspec[0] == "count" else 1
+        groups.insert(rng.randint(0, len(groups)), ("C%d" % ci, ("inherit", pname, n, pspec[0] == "count")))
     return groups
 
 
@@ -136,6 +145,8 @@ def build_cfg(mgroups, agroups, access):
                                         "withOrderExecution": False, "withPrint": False}]}}
     for g, spec in mgroups:
         d = {"class": "Market", "tickSize": 1.0, "marketPrice": 100.0}
+        if spec[0] == "inherit":
+            d = {"extends": spec[1]}
         if spec[0] == "count":
             d["numMarkets"] = spec[1]
         elif spec[0] == "range":
@@ -145,6 +156,8 @@ def build_cfg(mgroups, agroups, access):
         d = {"class": "FCNAgent", "markets": acc, "assetVolume": 50, "cashAmount": 10000,
              "fundamentalWeight": 1.0, "chartWeight": 0.0, "noiseWeight": 1.0, "noiseScale": 0.001,
              "timeWindowSize": 100, "orderMargin": 0.01}
+        if spec[0] == "inherit":
+            d = {"extends": "A" + spec[1]}
         if spec[0] == "count":
             d["numAgents"] = spec[1]
         elif spec[0] == "range":
@@ -155,6 +168,8 @@ def build_cfg(mgroups, agroups, access):
 
 
 def spec_count(spec):
+    if spec[0] == "inherit":
+        return spec[2]
     return 1 if spec[0] == "single" else (spec[1] if spec[0] == "count" else spec[2] - spec[1] + 1)
 
 
@@ -185,7 +200,7 @@ def run_C18(ctx, model_available=True):
     lines, expects = [], []
     checks = 0
     seen, nontriv = set(), set()
-    dist = {"extends": {"ok": 0, "missing": 0, "cycle": 0, "max_chain": 0}, "expand": {"single": 0, "count": 0, "range": 0, "range_len": {}},
+    dist = {"extends": {"ok": 0, "missing": 0, "cycle": 0, "max_chain": 0}, "expand": {"single": 0, "count": 0, "range": 0, "inherit": 0, "range_len": {}},
             "uniform": 0, "expon": 0, "findclass": 0, "session": 0, "setups": 0, "markets_max": 0}
 
     def add_v(v):
@@ -239,6 +254,9 @@ def run_C18(ctx, model_available=True):
         mgroups = gen_groups(rng)
         agroups = gen_groups(rng)
         access = [rng.sample([g for g, _ in mgroups], rng.randint(1, len(mgroups))) for _ in agroups]
+        for k, (g, spec) in enumerate(agroups):
+            if spec[0] == "inherit":      # the list of market groups is inherited with everything else
+                access[k] = access[[x for x, _ in agroups].index(spec[1])]
         if i % 9 == 0:
             mgroups.append(("Gbig", ("count", rng.choice([8, 12]))))
         cfg = build_cfg(mgroups, agroups, access)
@@ -280,8 +298,11 @@ def run_C18(ctx, model_available=True):
                                {"group": g, "spec": spec, "created": len(ents)}, inp))
                 if ids != list(range(counter, counter + len(ents))):
                     add_v(viol("C18/ids-not-consecutive", "entities get unique consecutive ids", {"group": g, "ids": ids, "expected_from": counter}, inp))
-                lines.append("EXPAND %d %d %d %d" % (counter, {"single": 0, "count": 1, "range": 2}[spec[0]],
-                                                     spec[1] if len(spec) > 1 else 0, spec[2] if len(spec) > 2 else 0))
+                mspec = spec
+                if spec[0] == "inherit":      # for the model: the group it expands to
+                    mspec = ("count", spec[2]) if spec[3] else ("single",)
+                lines.append("EXPAND %d %d %d %d" % (counter, {"single": 0, "count": 1, "range": 2}[mspec[0]],
+                                                     mspec[1] if len(mspec) > 1 else 0, mspec[2] if len(mspec) > 2 else 0))
                 try:
                     parts = [name_parts(nm, g) for nm in names]
                 except Exception:
